@@ -7,7 +7,10 @@
      transport.Listen(...).Accept() and read with Conn.Recv until the first error, then the
      accepted connection sent [sent] back producing [out]: the model is detect followed by
      read_stream / write with the detected codec.
-   CWrite: one codec.Write call (kind, arg, bytes written). *)
+   CWrite: one codec.Write call (kind, arg, bytes written).
+   CListenCodec: a client stream accepted by transport.ListenCodec(codec) (tag read with
+     Codec.ReadHeader) and read until the first error.
+   CPrefix: the frames sent before a failed conn.Write are the head of the recorded wire. *)
 From Coq Require Import List ZArith Bool.
 From TD Require Export Lib.HexBytes.
 From TD Require Import Lib.GoSem Lib.RunLib Impl.Crc32 Model.Codec Run.Check_C17.
@@ -17,7 +20,9 @@ Open Scope Z_scope.
 Inductive case :=
 | CStream (codec seq : Z) (rnds ps : list (list Z)) (wire : list Z) (frames : list (list Z)) (stop : Z * Z)
 | CAccept (wire : list Z) (frames : list (list Z)) (stop : Z * Z) (sent rnds : list (list Z)) (out : list Z)
-| CWrite (codec seq : Z) (rnd p : list Z) (res : Z * Z * list Z).
+| CWrite (codec seq : Z) (rnd p : list Z) (res : Z * Z * list Z)
+| CListenCodec (codec : Z) (wire : list Z) (frames : list (list Z)) (stop : Z * Z)
+| CPrefix (codec seq : Z) (rnds ps : list (list Z)) (wire : list Z).
 
 Definition stop_of (s : stop) : Z * Z :=
   match s with StopErr e => kind_of e | StopPanic => (9, 0) | StopFuel => (11, 0) end.
@@ -57,6 +62,22 @@ Definition ok (c : case) : bool :=
     | Ok f => (k =? 0) && zlist_eqb f out
     | Err e => zz_eqb (kind_of e) (k, arg)
     | Panic => k =? 9
+    end
+  | CListenCodec ci wire frames stop =>
+    (* transport.ListenCodec: Codec.ReadHeader, then Recv until the first error *)
+    let cd := codec_of ci in
+    match read_header cd wire with
+    | Ok s =>
+      let '(fs, st) := read_stream crc32 cd 0 (S (length wire)) s in
+      list_eqb zlist_eqb fs frames && zz_eqb (stop_of st) stop
+    | Err e => match frames with [] => zz_eqb (kind_of e) stop | _ => false end
+    | Panic => false
+    end
+  | CPrefix ci seq rnds ps wire =>
+    (* a connection on which a later conn.Write failed: the frames sent before are at the head of the wire *)
+    match write_seq (codec_of ci) seq rnds ps with
+    | Ok w => zlist_eqb w (firstn (length w) wire)
+    | _ => false
     end
   end.
 Definition mismatches (cs : list case) : list nat := mismatch_idx ok cs.
